@@ -11,7 +11,9 @@ RULE = ("(A) MC_Codec: every bit pattern up to W bits: Enc(Dec(p)) = p for uint/
         "length in token / keyword / value in token, property assignment) on rotating classes and read back through every "
         "reading route (property, property with length, Dtype.parse, unpack, unpack with keyword length, read); every pattern "
         "up to W bits interpreted by every route. (C) random values at 1..333 bits (limits, limits+-1), 8..320-bit endian "
-        "ints, arbitrary doubles incl. float32/16 midpoints +-1ulp, subnormals, overflow, inf, nan, -0.0. TLC judges each "
+        "ints, arbitrary doubles incl. float32/16 midpoints +-1ulp, subnormals, overflow, inf, nan, -0.0. Value histories: a value stored in a mutable object "
+        "(incl. plain property assignment onto a sized object), the object changed in place, the same (dtype, length, value) "
+        "created afresh by other routes and read back. TLC judges each "
         "event with EncodeDtype / DecodeDtype of Codec.tla.")
 
 
@@ -25,5 +27,6 @@ def run(chk):
     cc.run_random(chk, codecprogs.random_codec_program, 6000 if thorough else 1200, 2)
     cc.run_random(chk, codecprogs.random_pattern_program, 3000 if thorough else 500, 22)
     cc.run_random(chk, codecprogs.equal_but_distinct_program, 1500 if thorough else 300, 23)
+    cc.run_random(chk, codecprogs.value_history_program, 3000 if thorough else 600, 24)
     chk.flush()
     return chk.finish(rule=RULE, assumptions=ASSUME + ['sys.byteorder is little (checked by the harness at start-up)'])
